@@ -60,7 +60,8 @@ def gen_case(rng, params, idx):
     hier = gen.gen_hierarchy(rng, rng.randint(2, 4), attrs=True)
     names = [s["name"] for s in hier]
     spec = gen.gen_program(rng, hier=hier, npos=rng.choice([1, 1, 2]), nmeth=(3, 6), dep=0.2,
-                           kinds=("leaf", "next", "next", "rec", "fnext"), kw=0.0, other_arity=0.1, catchall=0.7)
+                           kinds=("leaf", "next", "next", "rec", "fnext"), kw=0.0, other_arity=0.1, catchall=0.7,
+                           p_strict=0.0 if scn == "invalid_method" else 0.15)
     if scn == "hook_raises" or rng.random() < 0.3:
         # make sure user predicates take part in resolution
         for m in spec["methods"][:2]:
